@@ -239,8 +239,13 @@ func (s *sandbox) snapshotOS() []vfsx.Entry {
 // exist as "/name" are looked up as "name" and "../name").
 func memSnapshot(fs afero.Fs, skip string) []vfsx.Entry {
 	var out []vfsx.Entry
+	visited := map[string]bool{} // MemMapFs can be brought to list its root as its own child
 	var walk func(key string)
 	walk = func(key string) {
+		if visited[key] {
+			return
+		}
+		visited[key] = true
 		fi, err := fs.Stat(key)
 		if err != nil {
 			return
@@ -299,6 +304,7 @@ type caseResult struct {
 	transc   bool
 	wrote    bool
 	refOut   bool
+	silent   bool // a traced call succeeded on an outside path without any visible change in the dump
 }
 
 var kinds = []struct {
@@ -471,7 +477,8 @@ func (s *sandbox) runCase(c *caseSpec) (res caseResult, engineErr error) {
 	var mon *monitor
 	var err error
 	var diffs []diff
-	var insideOp func(p string) bool
+	var insideOp func(p string, followsLast bool) bool
+	reset := func() error { return nil }
 	var hasLink bool
 	archiveIntact := true
 
@@ -505,10 +512,12 @@ func (s *sandbox) runCase(c *caseSpec) (res caseResult, engineErr error) {
 				hasLink = true
 			}
 		}
-		insideOp = func(p string) bool {
+		insideOp = func(p string, followsLast bool) bool {
 			a := mon.abs(p)
-			if hasLink {
-				if r, e := filepath.EvalSymlinks(filepath.Dir(a)); e == nil {
+			if hasLink { // resolve through the real parent chain (and the last component when the call follows links)
+				if r, e := filepath.EvalSymlinks(a); e == nil && followsLast {
+					a = r
+				} else if r, e := filepath.EvalSymlinks(filepath.Dir(a)); e == nil {
 					a = filepath.Join(r, filepath.Base(a))
 				}
 			}
@@ -517,7 +526,10 @@ func (s *sandbox) runCase(c *caseSpec) (res caseResult, engineErr error) {
 		if b, e := os.ReadFile(s.src); e != nil || !bytes.Equal(b, z) {
 			archiveIntact = false
 		}
-		if !sameDump(after, s.baseline[want]) {
+		reset = func() error {
+			if sameDump(after, s.baseline[want]) {
+				return nil
+			}
 			verify := len(diffs) > 0
 			if len(diffs) == 0 && destAbsPath == filepath.Join(s.base, destName) {
 				// only the destination differs from the baseline: empty it and restore the two timestamps involved
@@ -531,16 +543,17 @@ func (s *sandbox) runCase(c *caseSpec) (res caseResult, engineErr error) {
 					e = os.Chtimes(s.base, stampTime, stampTime)
 				}
 				if e != nil {
-					return res, e
+					return e
 				}
 				s.cleanups++
 				verify = s.cleanups%64 == 1
 			} else if e := s.rebuild(c.DestExists); e != nil {
-				return res, e
+				return e
 			}
 			if verify && !sameDump(s.snapshotOS(), s.baseline[want]) {
-				return res, fmt.Errorf("sandbox reset does not reproduce the baseline dump")
+				return fmt.Errorf("sandbox reset does not reproduce the baseline dump")
 			}
+			return nil
 		}
 	case "mem":
 		mem := afero.NewMemMapFs()
@@ -577,7 +590,7 @@ func (s *sandbox) runCase(c *caseSpec) (res caseResult, engineErr error) {
 			ignore = key(filepath.Dir(destKey))
 		}
 		diffs = compareOutside(before, after, inside, ignore)
-		insideOp = inside
+		insideOp = func(p string, _ bool) bool { return inside(p) }
 		if b, e := afero.ReadFile(mem, s.src); e != nil || !bytes.Equal(b, z) {
 			archiveIntact = false
 		}
@@ -607,8 +620,13 @@ func (s *sandbox) runCase(c *caseSpec) (res caseResult, engineErr error) {
 		if op.Kind == string(vfsx.KRename) || op.Kind == string(vfsx.KLink) {
 			paths = append(paths, op.Path2)
 		}
+		follows := true
+		switch op.Kind {
+		case string(vfsx.KRemove), string(vfsx.KRemoveAll), string(vfsx.KRename), string(vfsx.KSymlink), string(vfsx.KLink), string(vfsx.KForceRemove):
+			follows = false // these act on the directory entry itself
+		}
 		for _, p := range paths {
-			if !insideOp(p) {
+			if !insideOp(p, follows) {
 				in = false
 			}
 		}
@@ -639,9 +657,12 @@ func (s *sandbox) runCase(c *caseSpec) (res caseResult, engineErr error) {
 	if len(diffs) > 0 && firstOutside == "" {
 		add("outside-changed:"+diffs[0].kind+":"+nameClass, fmt.Sprintf("outside the destination: %s %q (and %d more differences) although no traced call succeeded outside", diffs[0].kind, diffs[0].path, len(diffs)-1))
 	}
-	if len(diffs) == 0 && firstOutside != "" && firstOutside != string(vfsx.KMkdirAll) && firstOutside != string(vfsx.KChtimes) {
-		// a successful write outside must be visible in the dump; if it is not, the two observers disagree
-		engineErr = fmt.Errorf("trace reports a successful %s outside the destination but the dump outside is unchanged (case %d)", firstOutside, c.Index)
+	if len(diffs) == 0 && firstOutside != "" {
+		// e.g. MkdirAll of an existing outside directory, or (in-memory backend) a directory opened for writing
+		res.silent = true
+	}
+	if e := reset(); e != nil && engineErr == nil {
+		engineErr = e
 	}
 	if !archiveIntact {
 		add("archive-modified:"+nameClass, "the source archive was modified by the extraction")
@@ -683,6 +704,7 @@ type shardResult struct {
 	Wrote           int64               `json:"wrote"`
 	RefOutside      int64               `json:"ref_outside"`
 	AttemptsOutside int64               `json:"attempts_outside"`
+	SilentOutside   int64               `json:"silent_outside"`
 	Viol            map[string]*violRec `json:"viol"`
 	Samples         []sample            `json:"samples"`
 	EngineErrors    []string            `json:"engine_errors"`
@@ -741,6 +763,9 @@ func worker(shard, n int) shardResult {
 			out.Outcomes[res.outcome]++
 			out.ErrKinds[res.ErrKind]++
 			out.AttemptsOutside += res.attempts
+			if res.silent {
+				out.SilentOutside++
+			}
 			if res.transc {
 				out.Transcoded++
 			}
@@ -817,6 +842,7 @@ func TestC02(t *testing.T) {
 		total.Wrote += r.Wrote
 		total.RefOutside += r.RefOutside
 		total.AttemptsOutside += r.AttemptsOutside
+		total.SilentOutside += r.SilentOutside
 		total.CPUSeconds += r.CPUSeconds
 		for k, v := range r.PerBlock {
 			total.PerBlock[k] += v
@@ -892,6 +918,7 @@ func TestC02(t *testing.T) {
 	rep.Coverage["cases_whose_path_was_transcoded"] = total.Transcoded
 	rep.Coverage["cases_whose_raw_name_resolves_outside"] = total.RefOutside
 	rep.Coverage["attempts_outside_that_failed"] = total.AttemptsOutside
+	rep.Coverage["successful_calls_outside_without_visible_change"] = total.SilentOutside
 	rep.Coverage["cpu_s"] = total.CPUSeconds
 	rep.Coverage["samples"] = total.Samples
 	rep.Assume = []string{
